@@ -180,8 +180,13 @@ fn maker(
 ) {
     move || {
         let n = cfg.programs.len();
-        // the table must be empty between executions so they do not alias
+        // the table must be empty between executions so they do not alias (an execution the
+        // controller aborted may also have left the lock poisoned)
         let start_len = rbx_types::verif::string_cache_len();
+        rbx_types::verif::STRING_CACHE.clear_poison();
+        if start_len != 0 {
+            rbx_types::verif::reset_string_cache();
+        }
         let table: Table = Arc::new(Mutex::new(vec![Vec::new(); n]));
         let mut bodies: Vec<Box<dyn FnOnce() -> ThreadEnd + Send + 'static>> = Vec::new();
         // pre-existing handles: created single-threaded by the controller
@@ -238,7 +243,9 @@ fn maker(
 
 fn judge(ex: &Execution<ThreadEnd>) -> Obs18 {
     let mut failures: Vec<String> = Vec::new();
-    if ex.deadlock {
+    if ex.lock_deadlock {
+        failures.push("deadlock: every unfinished thread waits for the intern-table lock".into());
+    } else if ex.deadlock {
         failures.push("deadlock: a step did not reach its next yield point".into());
     }
     for (tid, p) in &ex.panics {
